@@ -447,7 +447,7 @@ Section Cross.
         pose proof (hi_max _ _ _ _ _ _ _ _ _ _ _ _ IC k Wk) as Hmax.
         set (P := fun x y => y = x - a /\ 0 <= x /\ 0 <= y /\ x + fC k + 1 <= n1).
         assert (Hp : P (nvO a) (nvO a - a)).
-        { apply (nv_inv n1 n2 MO DO fO sO P a).
+        { apply (nv_inv n1 n2 MO DO fO sO eO P a).
           - unfold P. intros x y (E1 & E2 & E3 & E4) L1 L2 Hm. repeat split; try lia.
             destruct (Z.eq_dec (x + fC k + 1) n1) as [Eq|Ne]; [exfalso|lia].
             unfold scond in Hmax. rewrite HMsym in Hmax.
